@@ -296,9 +296,14 @@ func main() {
 	absent := []wop{R("203.0.113.0/24"), R("203.0.114.0/24"), R("203.0.115.0/24"), R("203.0.116.0/24"), R("203.0.117.0/24")}
 	sF := &spec{pre: []string{"192.168.0.0/24", "10.1.0.0/16", "10.2.0.0/16", "10.3.0.0/16"}, writers: [][]wop{absent}, readers: [][]string{{always, churn, never}}}
 	sE := &spec{pre: []string{"10.2.0.0/16"}, writers: [][]wop{{A("0.0.0.0/0"), R("10.2.0.0/16")}}, readers: [][]string{{churn}}} // the "either answer" case of the statement
+	// every kind of prefix length on both sides of the switch: host ranges (/32), /31, /16, /2 (none covering another)
+	wG := []wop{A("10.1.0.0/16"), A("10.2.0.0/16"), A("203.0.113.9/32"), A("203.0.113.10/31"), R("10.1.0.0/16")}
+	sG := &spec{pre: []string{"192.0.2.1/32", "64.0.0.0/2"}, writers: [][]wop{wG}, readers: [][]string{{"192.0.2.1", "203.0.113.9", "200.1.2.3"}}}
 	P := func(b ...int) sdrive.Plan { return sdrive.Plan{Bounds: b} }
 	PS := func(n int, b ...int) sdrive.Plan { return sdrive.Plan{Bounds: b, Shards: n} }
 	scens := []sdrive.Scenario{
+		{Name: "G-prefix-lengths-across-switch", Props: []string{"C12"}, About: "a /32 and a /2 present before, a /32 and a /31 added after the list->maps switch; a reader probes the host addresses while the writer crosses the switch",
+			Quick: P(0, 1, 2), Thorough: PS(16, 0, 1, 2, -1), Body: body(sG), MinOutcomes: 1},
 		{Name: "A-writer+reader", Props: []string{"C12"}, About: "one writer crossing the list->maps switch then removing, one reader (always / never / churned address)",
 			Quick: P(0, 1, -1), Thorough: P(0, 1, -1), Body: body(sA), MinOutcomes: 2},
 		{Name: "B-writer+matchall+reader", Props: []string{"C12"}, About: "writer crossing the switch, second writer toggling 0.0.0.0/0, reader",
